@@ -89,7 +89,8 @@ fn gen_record(ctx: &mut Ctx) -> (Vec<u8>, &'static str) {
         (v, "short_name")
     } else if k < 84 {
         // non UTF-8 name
-        let bad: [&[u8]; 5] = [&[0xff], &[0xc0, 0x80], &[0xe0, 0x80, 0x80], &[0xed, 0xa0, 0x80], &[0x61, 0xf5]];
+        // (the last four are valid up to their end and stop in the middle of a character)
+        let bad: [&[u8]; 9] = [&[0xff], &[0xc0, 0x80], &[0xe0, 0x80, 0x80], &[0xed, 0xa0, 0x80], &[0x61, 0xf5], &[0x61, 0x70, 0x70, 0xe2, 0x82], &[0xc3], &[0xf0, 0x9f, 0x98], &[0xd0, 0x9f, 0xd0]];
         let app = ctx.rng.pick(&bad).to_vec();
         let total = 37 + app.len() + payload.len();
         (record(total as u32, src, dst, app.len() as u8, &app, &payload), "bad_utf8")
